@@ -556,6 +556,16 @@ func c05Pathological() []string {
 		strings.Repeat("x", 4090)+"{{ v", strings.Repeat("x", 4100)+"{{ v", strings.Repeat("x", 4100)+"{{ v }", strings.Repeat("x", 4100)+"{", strings.Repeat("x", 4100)+"{%", strings.Repeat("x", 4100)+"{{ v -}}", strings.Repeat("x", 4100)+"{{- v -", strings.Repeat("x", 4100)+"{#",
 		strings.Repeat("{{ v }}\n", 600)+"{% if", strings.Repeat("é", 2100)+"{{ v }}\\", "\\", "\\{{", "\\{% x", strings.Repeat("\\{{ x }}", 600),
 	)
+	// string-literal escapes: every byte after a backslash, alone, followed by one more character, and at the end of the literal
+	for b := 0; b < 256; b++ {
+		c := string([]byte{byte(b)})
+		if c == "\"" {
+			continue
+		}
+		out = append(out, "{{ \"\\"+c+"\" }}", "{{ \"a\\"+c+"4\" }}", "{{ '\\x"+c+"' }}", "{{ v|default(\"\\"+c+"\") }}")
+	}
+	out = append(out, `{{ "\x" }}`, `{{ "\x4" }}`, `{{ "\x41" }}`, `{{ "\x414" }}`, `{{ "\u" }}`, `{{ "\u00" }}`, `{{ "\u0041" }}`, `{{ "\u{1F600}" }}`, `{{ "\u{" }}`, `{{ "\0" }}`, `{{ "\400" }}`, `{{ "\8" }}`,
+		`{{ "\" }}`, `{{ 'a\' }}`, `{{ "\\" }}`, `{{ "\\\" }}`, `{{ "#{x}" }}`, `{{ "#{" }}`, "{{ \"\\\n\" }}", `{{ '\' ~ "\\" }}`, `{% set q = "\x" %}`, `{% include "\x4" ignore missing %}`, `{{ {"\x": 1}|keys|first }}`)
 	return out
 }
 
